@@ -81,6 +81,8 @@ pub struct Compiler {
     pub filter_end: Option<Rc<CompiledFunction>>,
     // first instruction operand that did not fit its encoding, if any
     operand_overflow: Option<CompileError>,
+    // scope index of the filter statement being compiled, if any
+    filter_scope: Option<usize>,
 }
 
 impl Compiler {
@@ -107,6 +109,7 @@ impl Compiler {
             filters: Vec::new(),
             filter_end: None,
             operand_overflow: None,
+            filter_scope: None,
         }
     }
 
@@ -394,7 +397,9 @@ impl Compiler {
                 }
             }
             Statement::Return(stmt) => {
-                if self.scope_index == 0 {
+                // The pattern and action of a filter are compiled in a scope of
+                // their own, but that scope is not a function to return from
+                if self.scope_index == 0 || self.filter_scope == Some(self.scope_index) {
                     return Err(CompileError::new(
                         "return statement outside of function",
                         stmt.token.line,
@@ -1238,6 +1243,7 @@ impl Compiler {
     /// the bytecode for the filter statement is captured and stored separately.
     fn compile_filter_statement(&mut self, expr: FilterStmt) -> Result<(), CompileError> {
         self.enter_scope();
+        let outer_filter_scope = self.filter_scope.replace(self.scope_index);
 
         // If there is no filter pattern, and if it is not an 'end' pattern,
         // then the control flow executes the action statement unconditionally.
@@ -1267,6 +1273,7 @@ impl Compiler {
         // Get the number of locals and create the function
         let num_locals = self.symtab.get_num_definitions();
         let instructions = self.leave_scope();
+        self.filter_scope = outer_filter_scope;
         // There are not free variables for the function wrapping a filter
         // The filter statements are compiled as closures that takes no parameters
         let filter = Rc::new(CompiledFunction::new(
